@@ -49,6 +49,7 @@ type Config struct {
 	noNative         bool
 	stats            *Stats
 	deadline         time.Time
+	grace            time.Duration
 }
 
 type Engine struct {
@@ -119,6 +120,7 @@ type HarnessRun struct {
 	npaths     int64
 	samples    []string
 	t0         time.Time
+	deadline   time.Time
 }
 
 func (h *HarnessRun) push(script []int) {
@@ -174,6 +176,13 @@ func (eng *Engine) runHarness(spec *HarnessSpec) *HarnessRun {
 	h := &HarnessRun{eng: eng, spec: spec, fn: fn, viol: map[string]*Violation{}, reachCount: map[string]int64{},
 		assertStat: map[string]*[4]int64{}, funcs: map[string]int64{}, outsideN: map[string]int64{}, races: map[string]bool{}, t0: time.Now()}
 	h.cond = sync.NewCond(&h.mu)
+	// every harness configuration gets to run: when the check's time budget is (nearly) used up by an earlier configuration,
+	// the later ones still get a quarter of it each, so that what they would report is not lost (the verdict stays
+	// inconclusive unless one of them reports a violation)
+	h.deadline = eng.cfg.deadline
+	if !eng.cfg.deadline.IsZero() && eng.cfg.grace > 0 && time.Now().Add(eng.cfg.grace).After(eng.cfg.deadline) {
+		h.deadline = time.Now().Add(eng.cfg.grace)
+	}
 	if fn == nil {
 		h.incon = append(h.incon, "harness function "+spec.Func+" not found (overlay build?)")
 		return h
@@ -212,7 +221,7 @@ func (h *HarnessRun) runPath(pf *Portfolio, script []int) {
 		h.cond.Broadcast()
 		return
 	}
-	if !eng.cfg.deadline.IsZero() && time.Now().After(eng.cfg.deadline) {
+	if !h.deadline.IsZero() && time.Now().After(h.deadline) {
 		h.inconclusive("time budget exceeded before the exploration finished")
 		h.mu.Lock()
 		h.stopped = true
